@@ -122,4 +122,74 @@ def runCase (cfg : List String) (ops : List String) : List String :=
     let r := readConfig ini
     ops.map (answer r)
 
+/-! ## line protocol of the include model
+
+  case include <token>*     H=<directory of the main file>, then S=/O= tokens of the main file's sections (raw values, as
+                            ConfigParser tokenises that file alone), then per include pattern P=<abspath(dirname(pattern))>
+                            and per matched file (in sorted order) F=<abspath(dirname(file))> followed by its S=/O= tokens
+  op:  view                 the parser's sections after read_include_config: S=<name> O=<option>:<value> … -/
+
+def hereMarker : String := "%(here)s"
+
+/-- a raw value split around the occurrences of `%(here)s` -/
+def hvalOf (v : String) : HVal :=
+  match v.splitOn hereMarker with
+  | [] => []
+  | p :: ps => HTok.lit p :: ps.flatMap fun q => [HTok.here, HTok.lit q]
+
+def hvalStr (v : HVal) : String :=
+  String.join (v.map fun t => match t with | .lit s => s | .here => hereMarker)
+
+structure IncParse where
+  here : String := ""
+  main : List HSection := []
+  pats : List IncPattern := []
+  inMain : Bool := true
+
+def IncParse.addSection (st : IncParse) (name : String) : Option IncParse :=
+  if st.inMain then some { st with main := st.main ++ [⟨name, []⟩] }
+  else match st.pats.getLast?, st.pats.dropLast with
+    | some p, ps => match p.files.getLast?, p.files.dropLast with
+      | some f, fs => some { st with pats := ps ++ [{ p with files := fs ++ [{ f with sections := f.sections ++ [⟨name, []⟩] }] }] }
+      | none, _ => none
+    | none, _ => none
+
+def addOptTo (secs : List HSection) (kv : String × String) : Option (List HSection) :=
+  match secs.getLast?, secs.dropLast with
+  | some s, ss => some (ss ++ [{ s with opts := s.opts ++ [(kv.1, hvalOf kv.2)] }])
+  | none, _ => none
+
+def IncParse.addOpt (st : IncParse) (kv : String × String) : Option IncParse :=
+  if st.inMain then (addOptTo st.main kv).map fun m => { st with main := m }
+  else match st.pats.getLast?, st.pats.dropLast with
+    | some p, ps => match p.files.getLast?, p.files.dropLast with
+      | some f, fs => (addOptTo f.sections kv).map fun ss => { st with pats := ps ++ [{ p with files := fs ++ [{ f with sections := ss }] }] }
+      | none, _ => none
+    | none, _ => none
+
+def parseInclude : List String → IncParse → Option IncParse
+  | [], st => some st
+  | t :: rest, st =>
+    match t.splitOn "=" with
+    | ["H", v] => (strOfHex v).bind fun x => parseInclude rest { st with here := x }
+    | ["P", v] => (strOfHex v).bind fun x => parseInclude rest { st with pats := st.pats ++ [⟨x, []⟩], inMain := false }
+    | ["F", v] =>
+      match strOfHex v, st.pats.getLast?, st.pats.dropLast with
+      | some x, some p, ps => parseInclude rest { st with pats := ps ++ [{ p with files := p.files ++ [⟨x, []⟩] }] }
+      | _, _, _ => none
+    | ["S", v] => (strOfHex v).bind fun x => (st.addSection x).bind (parseInclude rest)
+    | ["O", v] => (pairOfHex v).bind fun kv => (st.addOpt kv).bind (parseInclude rest)
+    | _ => none
+
+def viewLine (secs : List HSection) : String :=
+  " ".intercalate (secs.flatMap fun s => ("S=" ++ hexS s.name) :: s.opts.map fun kv => "O=" ++ hexS kv.1 ++ ":" ++ hexS (hvalStr kv.2))
+
+def runInclude (cfg : List String) (ops : List String) : List String :=
+  match parseInclude cfg {} with
+  | none => ops.map fun _ => "bad-config"
+  | some st => ops.map fun op =>
+    match words op with
+    | ["view"] => viewLine (readInclude st.here st.main st.pats)
+    | _ => "bad-op"
+
 end Sv.Config
